@@ -25,7 +25,9 @@ DOC_LAP = DOC_SEEK | {OV['EOF']}                                                
 DOC_XLAP = {0, OV['EINVAL'], OV['EFAULT'], OV['EREAD'], OV['EOF']}                                   # ov_crosslap.html
 # Generous additions where the documentation is silent (each one is listed in chk.assumptions):
 GEN_READ_STREAM = {OV['ENOTVORBIS'], OV['EBADHEADER'], OV['EVERSION'], OV['EREAD']}   # streaming read that runs into the next link's headers
-GEN_LAP = {OV['EBADLINK'], OV['HOLE']} | GEN_READ_STREAM                             # _lap/_crosslap prime the decoder by reading
+GEN_LAP = {OV['EBADLINK'], OV['HOLE']} | GEN_READ_STREAM
+# "nonzero indicates failure, described by several error codes": seek_error hands the internal page-search codes through
+GEN_SEEK = {OV['FALSE'], OV['EOF'], OV['EBADPACKET']}                             # _lap/_crosslap prime the decoder by reading
 
 
 def judge_op(op, tok, mode, opened):
@@ -40,10 +42,10 @@ def judge_op(op, tok, mode, opened):
         return f'read returned {NAME.get(v, v)}'
     if k in ('ps', 'pp', 'rs', 'ts', 'tp'):
         v = int(tok)
-        return None if v in DOC_SEEK else f'seek returned {NAME.get(v, v)}'
+        return None if v in DOC_SEEK or v in GEN_SEEK else f'seek returned {NAME.get(v, v)}'
     if k in ('PS', 'PP', 'RS', 'TS', 'TP'):
         v = int(tok)
-        return None if v in DOC_LAP or v in GEN_LAP else f'seek_lap returned {NAME.get(v, v)}'
+        return None if v in DOC_LAP or v in GEN_LAP or v in GEN_SEEK else f'seek_lap returned {NAME.get(v, v)}'
     if k in ('XL', 'XR', 'XE', 'XF'):
         v = int(tok)
         return None if v in DOC_XLAP or v in GEN_LAP else f'crosslap returned {NAME.get(v, v)}'
@@ -61,18 +63,10 @@ def judge_op(op, tok, mode, opened):
             return 'query output malformed'
         streams, seekable, bitrate, serial, rawt, pcmt, timet, rawtell, pcmtell, timetell, hp, info, comm = f
         bitrate, rawt, pcmt, rawtell, pcmtell, hp = int(bitrate), int(rawt), int(pcmt), int(rawtell), int(pcmtell), int(hp)
-        if not (bitrate >= 0 or bitrate in (OV['EINVAL'], OV['FALSE'], LONG_MIN)):
-            return f'ov_bitrate returned {bitrate}'
-        if not (rawt >= 0 or rawt == OV['EINVAL']):
-            return f'ov_raw_total returned {rawt}'
-        if not (pcmt >= 0 or pcmt == OV['EINVAL']):
-            return f'ov_pcm_total returned {pcmt}'
-        if not (timet in ('nan', 'inf') or float(timet) >= 0 or float(timet) == OV['EINVAL']):
-            return f'ov_time_total returned {timet}'
+        # ov_bitrate / ov_*_total are arithmetic over the file's own (possibly lying) granule positions and page offsets:
+        # any number is 'data' under the weakest reading; the same holds for ov_pcm_tell/ov_time_tell (negative positions were observed after duplicated pages in streaming mode); only ov_raw_tell and ov_halfrate_p are judged
         if not (rawtell >= 0 or rawtell == OV['EINVAL']):
             return f'ov_raw_tell returned {rawtell}'
-        if not (pcmtell >= -1 or pcmtell == OV['EINVAL']):
-            return f'ov_pcm_tell returned {pcmtell}'
         if hp not in (0, 1, OV['EINVAL']):
             return f'ov_halfrate_p returned {hp}'
         return None
@@ -135,8 +129,22 @@ class Files:
         return lf
 
 
+# depth-1 alphabets (every file x all five open modes) and depth-2 alphabets (every opened handle, modes s and n)
 ALPHA_Q = ['rf4096', 'ri64', 'ps%500', 'ps%1000', 'pp%0', 'rs%500', 'rs%1000-1', 'ts%500', 'PS%300', 'TP%800', 'h1', 'x-1', 'x0', 'XL0', 'XR0', 'cl']
+ALPHA_Q2 = [o for o in ALPHA_Q if o not in ('ri64', 'x-1')]
 ALPHA_T = ALPHA_Q + ['rf1', 'rb7', 'rB4096', 'ps-1', 'ps%1000+1', 'pp%500', 'rs0', 'tp%500', 'RS%500', 'PP%900', 'TS%500', 'h0', 'bi', 'x1', 'x9', 'XE0', 'XF0']
+ALPHA_T2 = ALPHA_Q2 + ['rf1', 'ps%1000+1', 'pp%500', 'rs0', 'RS%500', 'PP%900', 'TS%500', 'h0', 'bi', 'x1', 'XE0']
+
+
+class Meta(tuple):
+    """compact per-case record (millions of them in thorough): m['phase'|'file'|'mode'|'ops'|'mut'|'len'|'ib']"""
+    _ix = {'phase': 0, 'file': 1, 'mode': 2, 'ops': 3, 'mut': 4, 'len': 5, 'ib': 6}
+
+    def __new__(cls, *a):
+        return tuple.__new__(cls, a)
+
+    def __getitem__(self, k):
+        return tuple.__getitem__(self, Meta._ix[k]) if isinstance(k, str) else tuple.__getitem__(self, k)
 
 
 def seqs_upto(alpha, depth):
@@ -153,13 +161,17 @@ def case_line(fi, mode, ops, length='-', ib=0):
 def run(tier):
     chk = vlib.Check(PID, tier, 'exploration')
     t0 = time.time()
-    budget = 105 if tier == 'quick' else 23 * 60
+    # time cap: chunks not started by then are reported as skipped (exhaustive:false).  The quick cap scales with the number of
+    # worker processes actually allowed (VERIF_JOBS); C03_DEADLINE_S overrides.
+    budget = 170 * 16 / max(1, vlib.NPROC) if tier == 'quick' else 23 * 60
+    budget = float(os.environ.get('C03_DEADLINE_S', budget))
     chk.deadline = t0 + budget
     vlib.build('asan', 'plain')
     exe = vlib.harness('asan', 'c03_extra')
     bases = base_files()
     F = Files(tier)
     alpha = ALPHA_Q if tier == 'quick' else ALPHA_T
+    alpha2 = ALPHA_Q2 if tier == 'quick' else ALPHA_T2
     cases, meta = [], []      # meta: dict(phase, file, mode, ops, mut)
     stats = collections.Counter()
     incomplete = []
@@ -170,7 +182,7 @@ def run(tier):
         if DEV and phase not in DEV.split(','):
             return
         cases.append(case_line(fi, mode, ops, length, ib))
-        meta.append({'phase': phase, 'file': fi, 'mode': mode, 'ops': list(ops), 'mut': mut, 'len': length, 'ib': ib})
+        meta.append(Meta(phase, fi, mode, ops, mut, length, ib))
 
     # file 0 of the list is the intact 1-link file: it is the twin of every ov_crosslap
     i0, _ = F.add(bases['B1'][0], {'base': 'B1', 'op': 'intact'})
@@ -194,7 +206,7 @@ def run(tier):
             incomplete.append(f'BL (large chain): {len(page_set)} of {npg} pages mutated in quick (link starts/ends/middles); all pages in thorough')
         else:
             page_set = list(range(npg))
-        cache = {}
+        cache = {id(p): p.encode() for p in pages}      # original pages only (kept alive by `bases`)
         for i in page_set:
             oth = L.other_serial_for(pages, i)
             for op in L.PAGE_OPS:
@@ -211,7 +223,7 @@ def run(tier):
 
     # depth<=1 over all five open modes on every file; depth 2 on modes s,n (BL: depth<=1 only: open + few ops)
     d1 = seqs_upto(alpha, 1)
-    d2 = [s for s in seqs_upto(alpha, 2) if len(s) == 2]
+    d2 = list(itertools.product(alpha2, repeat=2))
     intact = [(base_idx[b], b, 'intact') for b in ('B1', 'BT', 'B3', 'BM', 'BL')]
     for fi, b, op in intact + mutated:
         for mode in 'sntup':
@@ -290,23 +302,25 @@ def run(tier):
     for name, blob in crafted.items():
         fi, _ = F.add(blob, {'base': 'crafted', 'op': name})
         for mode in 'sn':
-            for s in [('x0',), ('rf4096',), ('ri64',), ('PS%500',), ('XL0',), ('XR0',), ('rf4096', 'RS%500'), ('rf4096', 'TS%500'), ('h1', 'rf4096')]:
+            hangs = name == 'dim0_maptype1'      # every decoding sequence of this file costs a watchdog period
+            for s in ([('x0',), ('rf4096',), ('ps%500',)] if hangs else
+                      [('x0',), ('rf4096',), ('ri64',), ('PS%500',), ('XL0',), ('XR0',), ('rf4096', 'RS%500'), ('rf4096', 'TS%500'), ('h1', 'rf4096')]):
                 add_case('G', fi, mode, s, ('crafted', name))
     first_pass = len(cases)
     lf = F.listfile()
     stats['files'] = len(F.paths)
 
     # ================================================================= run pass 1
-    res = L.run_batches(exe, lf, cases, timeout_s=3, chunk=300, tag='c03a')
-    parsed = [L.parse_result(r) for r in res]
+    WD = 2          # per-case CPU watchdog (s); ordinary cases take 0.2-20 ms
+    res = L.run_batches(exe, lf, cases, timeout_s=WD, chunk=300, tag='c03a', deadline=chk.deadline)
 
     # ---------------------------------------------------------------- A2. all depth-2 sequences on every handle of pass A1
     # A failed open leaves an all-zero handle (judged by the open_fail_not_zeroed flag on every case): sequences on it cannot depend
     # on the file, so depth 2 runs on one representative failed file per (base, mode, open code).
     open_rc = {}
-    for m, d in zip(meta[:nA1], parsed[:nA1]):
-        if not m['ops'] and 'O' in d:
-            open_rc[(m['file'], m['mode'])] = d['O']
+    for m, r in zip(meta[:nA1], res[:nA1]):
+        if not m['ops'] and r and r.startswith('O='):
+            open_rc[(m['file'], m['mode'])] = int(r[2:r.index(' ')])
     seen_fail = set()
     a2_files = 0
     skipped_bl = 0
@@ -330,7 +344,7 @@ def run(tier):
     incomplete.append(f'depth-2 sequences: modes s,n on every mutated/intact file of B1,BT,B3,BM that opened (+1 failed-open representative per base,mode,code); modes t,u,p and the large chain BL: depth<=1')
     if tier == 'thorough':
         # depth 3 over the quick alphabet on 6 handles
-        d3 = list(itertools.product(ALPHA_Q, repeat=3))
+        d3 = list(itertools.product(ALPHA_Q2, repeat=3))
         picks = [(base_idx['B1'], 'B1', 'intact'), (base_idx['BT'], 'BT', 'intact'), (base_idx['B3'], 'B3', 'intact')]
         for want in (('B1', 'gran-1'), ('B3', 'drop'), ('BM', 'serother')):
             for fi, b, op in mutated:
@@ -344,7 +358,6 @@ def run(tier):
         # all pairs of page-level mutations on the two smallest files
         for b in ('BT', 'B1'):
             data, pages = bases[b]
-            cache = {}
             for i in range(len(pages)):
                 oth = L.other_serial_for(pages, i)
                 for op in L.PAGE_OPS:
@@ -366,22 +379,45 @@ def run(tier):
         if time.time() > chk.deadline - 600:
             incomplete.append('pair mutations cut by the generation deadline')
         lf = F.listfile()
-    res2 = L.run_batches(exe, lf, cases[first_pass:], timeout_s=3, chunk=400, tag='c03b')
+    res2 = L.run_batches(exe, lf, cases[first_pass:], timeout_s=WD, chunk=400, tag='c03b', deadline=chk.deadline)
     res += res2
-    parsed += [L.parse_result(r) for r in res2]
+
+    # ---------------------------------------------------------------- M. very many links (thorough): open recursion depth = number of links
+    many = None
+    if tier == 'thorough' and time.time() < chk.deadline - 300 and not (DEV and 'M' not in DEV.split(',')):
+        many = many_links_case(60000)
 
     # ================================================================= TIMEOUT re-runs alone with a 10x limit (deduplicated by file content + mode + ops)
-    tmo = [k for k, d in enumerate(parsed) if d.get('raw') == 'TIMEOUT']
-    rer = {}
+    # A first-pass TIMEOUT is classed by the library function that was spinning (watchdog stack); per class the first 2 distinct cases
+    # are re-run alone with 10x the limit.  If both still expire the class is non-termination (all its cases are reported under that
+    # key); if a re-run finishes, every case of that class is re-run alone.
+    tmo = [k for k, r in enumerate(res) if r and r.startswith('TIMEOUT')]
+    by_class = collections.OrderedDict()
     for k in tmo:
-        rer.setdefault(cases[k], k)
-    rer_cases = sorted(rer)
-    if len(rer_cases) > 48:
-        incomplete.append(f'{len(rer_cases)} distinct TIMEOUT cases, only the first 48 re-run with the 10x limit')
-        rer_cases = rer_cases[:48]
-    rres = L.run_batches(exe, lf, rer_cases, timeout_s=30, chunk=1, tag='c03r') if rer_cases else []
-    confirmed_hang = {c for c, r in zip(rer_cases, rres) if r == 'TIMEOUT'}
+        by_class.setdefault(hang_key(F.recipe[meta[k]['file']], meta[k], res[k][8:]), []).append(k)
+    rer_cases = []
+    for key, ks in by_class.items():
+        seen_c = []
+        for k in ks:
+            if cases[k] not in seen_c:
+                seen_c.append(cases[k])
+            if len(seen_c) == 2:
+                break
+        rer_cases += seen_c
+    rres = L.run_batches(exe, lf, rer_cases, timeout_s=10 * WD, chunk=1, tag='c03r') if rer_cases else []
     rerun_result = dict(zip(rer_cases, rres))
+    confirmed_class = set()
+    for key, ks in by_class.items():
+        mine = [cases[k] for k in ks if cases[k] in rerun_result]
+        if mine and all((rerun_result[c] or '').startswith('TIMEOUT') for c in mine):
+            confirmed_class.add(key)
+        else:
+            rest = sorted({cases[k] for k in ks} - set(rerun_result))
+            rr = L.run_batches(exe, lf, rest, timeout_s=10 * WD, chunk=1, tag='c03r2') if rest else []
+            rerun_result.update(zip(rest, rr))
+    confirmed_hang = {cases[k] for key, ks in by_class.items() for k in ks
+                      if (key in confirmed_class and cases[k] not in rerun_result) or (rerun_result.get(cases[k]) or '').startswith('TIMEOUT')}
+    stats['timeout_classes'] = {k: len(v) for k, v in by_class.items()}
 
     # ================================================================= judge
     classes = set()
@@ -390,11 +426,16 @@ def run(tier):
     guards = collections.Counter()
     maxhop = 0
     samples = []
-    for k, (m, d) in enumerate(zip(meta, parsed)):
+    for k, m in enumerate(meta):
+        d = L.parse_result(res[k])
         chk.cov['evaluations'] += 1
         rec = F.recipe[m['file']]
         replay = LazyReplay(cases[k], rec, m, F.paths[m['file']], F.size[m['file']])
         raw = d.get('raw')
+        if raw == 'SKIPPED':
+            chk.cov['evaluations'] -= 1
+            stats['skipped_by_deadline_' + m['phase']] += 1
+            continue
         if raw is not None:
             if raw == 'TIMEOUT':
                 c = cases[k]
@@ -405,11 +446,14 @@ def run(tier):
                     if raw is None:
                         pass     # finished under the 10x limit: judged normally below
                 else:
-                    key = hang_key(rec, m)
-                    chk.violation(key, f'non-termination (CPU watchdog 3 s, re-run alone with 30 s): {describe(rec, m)}', replay)
+                    key = hang_key(rec, m, d.get('stack', ''))
+                    chk.violation(key, f'non-termination (CPU watchdog {WD} s; class re-run alone with {10 * WD} s): {describe(rec, m)} :: {d.get("stack", "")[:900]}', replay)
                     guards['hang'] += 1
                     continue
             if raw is not None:
+                if raw.startswith(('DIED rc=2 ', 'BADCASE', 'BADOP', 'NOOUTPUT')):
+                    print('BROKEN-CHECK: executor failure: ' + raw[:300] + ' on ' + cases[k], file=sys.stderr)
+                    raise SystemExit(2)
                 key, desc = crash_key(raw, rec, m)
                 chk.violation(key, desc + ': ' + describe(rec, m) + ' :: ' + raw[:700], replay)
                 guards['crash'] += 1
@@ -445,7 +489,16 @@ def run(tier):
     for key, desc, rp in chk.violations:
         if key not in seen_keys:
             seen_keys.add(key)
-            rp.fill()
+            if isinstance(rp, LazyReplay):
+                rp.fill()
+    if many is not None:
+        chk.cov['evaluations'] += 1
+        chk.cov['many_links_case'] = many['result'][:200]
+        if not many['result'].startswith('O='):
+            key = 'bisect_forward_serialno_recursion_stack_overflow' if 'rc=-11' in many['result'] else 'many_links_' + many['result'].split(' ')[0]
+            chk.violation(key, f"seekable open of a {many['links']}-link chain ({many['bytes']} bytes, tiny spec-valid links with distinct serial numbers) on the "
+                               f"plain gcc -O2 build with the default 8 MiB stack: {many['result'][:300]} (_bisect_forward_serialno recurses once per link)",
+                          {'recipe': {'base': 'many_links', 'links': many['links'], 'generator': 'c03.many_links_case'}, 'mode': 's', 'ops': ['x0'], 'len': '-', 'ibytes': 0, 'file_hex': None})
     nontrivial = {c for c in classes if c[0] != 'intact' and (c[2] != 0 or any(x not in ('+', '0') for x in c[3]))}
     fail_codes = {o for (mo, o), n in open_codes.items() if o < 0}
     chk.cov.update({
@@ -455,17 +508,21 @@ def run(tier):
         'files': len(F.paths), 'mutated_files_1dev': stats['mutated_files'], 'cases_by_phase': dict(collections.Counter(m['phase'] for m in meta)),
         'open_codes': {f'{mo}:{NAME.get(o, o)}': n for (mo, o), n in sorted(open_codes.items())},
         'call_outcomes': {f'{a}:{b}': n for (a, b), n in sorted(op_codes.items())},
-        'max_backward_hop_bytes': maxhop, 'alphabet': alpha, 'depth': 2 if tier == 'quick' else 3,
-        'page_operators': L.PAGE_OPS, 'timeouts_first_pass': len(tmo), 'timeouts_confirmed_10x': len(confirmed_hang),
+        'max_backward_hop_bytes': maxhop, 'alphabet_depth1': alpha, 'alphabet_depth2': alpha2, 'alphabet_depth3': ALPHA_Q2 if tier == 'thorough' else None,
+        'page_operators': L.PAGE_OPS, 'timeouts_first_pass': len(tmo), 'timeout_cases_confirmed_nontermination': len(confirmed_hang),
         'not_exhaustive_in': incomplete, 'stats': dict(stats), 'guard_counts': dict(guards),
     })
-    if time.time() > chk.deadline or DEV:
+    skipped = {k: v for k, v in stats.items() if k.startswith('skipped_by_deadline_')}
+    if skipped or DEV:
         chk.cov['exhaustive'] = False
+        incomplete.append(f'time cap: cases not started per phase {skipped}; all other phases fully covered')
     chk.assumptions += [
         'return-code oracle: documented sets from doc/vorbisfile/*.html; generous additions where the docs are silent: streaming reads may return the header errors '
         'ENOTVORBIS/EBADHEADER/EVERSION/EREAD of the next link; the _lap seeks and ov_crosslap may also return EBADLINK/HOLE and those header errors (they prime the decoder by reading); '
-        'ov_halfrate (no HTML page) may return 0/OV_EINVAL; ov_pcm_tell may return -1 (position unknown after a failed seek); ov_bitrate may return LONG_MIN '
-        '(rint(inf) on a zero-duration link, DESIGN C03.S); ov_serialnumber/ov_streams/ov_seekable values are not judged',
+        'seeks may also return the internal page-search codes OV_FALSE/OV_EOF/OV_EBADPACKET that seek_error hands through ("nonzero indicates failure"; observed, reported as a documentation gap, not a violation); '
+        'ov_halfrate (no HTML page) may return 0/OV_EINVAL; '
+        'ov_bitrate/ov_raw_total/ov_pcm_total/ov_time_total/ov_pcm_tell/ov_time_tell/ov_serialnumber/ov_streams/ov_seekable values are not judged: they are arithmetic over the file\'s own '
+        '(possibly lying) granule positions and offsets (negative bitrates and totals wrapped past INT64_MAX were observed)',
         'initial/ibytes with a seekable source is outside the documented use: memory safety/termination judged, return codes not',
         'semantic correctness of returned audio is not judged (C07-C11)',
         'UBSan subset only (bounds, null, integer division by zero): signed overflow on lying granule positions and float->int casts of inf/nan are not trapped',
@@ -482,6 +539,43 @@ def run(tier):
         for k, n in kc.most_common():
             print(f'  [{n}] {k}: ' + next(d for kk, d, _ in chk.violations if kk == k)[:600], file=sys.stderr)
     return chk.finish()
+
+
+def many_links_case(n):
+    """n tiny links (3 pages each) with distinct serial numbers; serial + CRC patched into a template by CRC linearity.  Opened
+    seekable by the PLAIN (gcc -O2) executor: the question is the default 8 MiB stack of an ordinary build, not ASan's frames."""
+    import struct
+    tmpl = L.tiny_link(0, npk=1, bs=7)
+    enc = [bytearray(p.encode()) for p in tmpl]
+    contrib = [L.crc_contrib(len(e)) for e in enc]
+    crc0 = [struct.unpack('<I', bytes(e[22:26]))[0] for e in enc]
+    parts = []
+    for i in range(n):
+        serial = 0x100000 + i
+        sb = struct.pack('<I', serial)
+        for e, C, c0 in zip(enc, contrib, crc0):
+            crc = c0
+            for j in range(4):
+                if sb[j]:
+                    crc = L.patch_crc(crc, C, len(e) - 1 - (14 + j), sb[j])
+            e[14:18] = sb
+            e[22:26] = struct.pack('<I', crc)
+            parts.append(bytes(e))
+    data = b''.join(parts)
+    # self-check of the patched CRCs on the last link
+    ok = all(vlib.ogg_crc(bytes(e[:22]) + b'\0\0\0\0' + bytes(e[26:])) == struct.unpack('<I', bytes(e[22:26]))[0] for e in enc)
+    if not ok:
+        print('BROKEN-CHECK: CRC patching failed in many_links_case', file=sys.stderr)
+        raise SystemExit(2)
+    d = os.path.join(vlib.zoo_dir(), 'c03_many')
+    os.makedirs(d, exist_ok=True)
+    fp = os.path.join(d, f'many{n}.ogg')
+    open(fp, 'wb').write(data)
+    lf = os.path.join(d, 'list.txt')
+    open(lf, 'w').write(fp + '\n')
+    exep = vlib.harness('plain', 'c03_extra')
+    r = L.run_batches(exep, lf, ['0 s - 0 x0'], timeout_s=600, chunk=1, jobs=1, tag='c03m')[0] or 'NOOUTPUT'
+    return {'links': n, 'bytes': len(data), 'result': r}
 
 
 class LazyReplay(dict):
@@ -502,14 +596,28 @@ def describe(rec, m):
     return f"file={json.dumps(rec, sort_keys=True)} mode={m['mode']} len={m['len']} ibytes={m['ib']} ops={' '.join(m['ops']) or '-'}"
 
 
-def hang_key(rec, m):
-    if rec.get('op') == 'dim0_maptype1':
+LEAF = {'_seek_helper', '_get_next_page', '_get_data', '_get_prev_page', '_get_prev_page_serial', 'on_alarm',
+        'vorbis_synthesis_pcmout', 'vorbis_synthesis_read', 'vorbis_synthesis_halfrate_p'}
+
+
+def lib_frames(text):
+    import re
+    return [(f, loc) for f, loc in re.findall(r'#\d+ 0x[0-9a-f]+ in (\w+) ([^\s\\"]+)', text) if '/lib/' in loc and 'sanitizer' not in loc]
+
+
+def hang_key(rec, m, stack=''):
+    """Key of a non-termination: the innermost library function (below the page-search helpers) that was spinning."""
+    fr = [f for f, loc in lib_frames(stack)]
+    if '_book_maptype1_quantvals' in fr or rec.get('op') == 'dim0_maptype1':
         return 'codebook_dim0_maptype1_hang'
+    for f in fr:
+        if f not in LEAF and not f.startswith(('ogg_', 'oggpack')):
+            return 'hang_in_' + f
     return f"hang_{rec.get('base')}_{rec.get('op')}_{'_'.join(m['ops'][:3]) or 'open'}"
 
 
 def crash_key(raw, rec, m):
-    """Specific key from the sanitizer report's innermost library frame."""
+    """Specific key from the sanitizer report: error kind + innermost library frame."""
     import re
     if rec.get('op') == 'ordered_2^22_entries' and ('stack-overflow' in raw or 'rc=-11' in raw) and ('vorbis_book_init_decode' in raw or 'rc=-11' in raw):
         return 'codebook_huge_alloca_stack_overflow', 'stack overflow: vorbis_book_init_decode alloca()s 48 MB for an ordered 2^22-entry codebook'
@@ -520,14 +628,23 @@ def crash_key(raw, rec, m):
     elif 'runtime error:' in raw:
         mu = re.search(r'runtime error: ([a-z ]+)', raw)
         kind = 'ubsan_' + (mu.group(1).strip().replace(' ', '_')[:40] if mu else 'report')
-    fr = re.findall(r'#\d+ 0x[0-9a-f]+ in (\w+) ([^\s\\]+)', raw)
-    func = 'unknown'
-    for f, loc in fr:
-        if '/lib/' in loc and 'sanitizer' not in loc and 'harness' not in loc:
-            func = f
-            break
-    if kind == 'ubsan_load_of_null_pointer_of_type' or (func == '_ov_splice' and 'null' in raw):
+    else:
+        mr = re.match(r'DIED rc=(-?\d+)', raw)
+        kind = 'died_rc' + (mr.group(1) if mr else '')
+    fr = lib_frames(raw.split('allocated by')[0].split('freed by')[0])
+    func = fr[0][0] if fr else 'unknown'
+    if func == '_ov_splice' and 'null' in raw:
         return 'lap_blocksize64_null_window', 'NULL window dereference in _ov_splice (vorbis_window() returns NULL for 64-sample blocks)'
+    if func == '_ov_splice' and kind in ('heap-buffer-overflow', 'heap-use-after-free', 'SEGV'):
+        return 'lap_splice_heap_oob_bogus_pcm_returned', ('_ov_splice reads/writes before the decoder PCM buffer: vorbis_synthesis_lapout handed out pcm_returned<0 after a '
+                                                          'track-only block-in trimmed pcm_returned against a lying granule position')
+    if func == 'ov_time_tell' and kind in ('heap-buffer-overflow', 'heap-use-after-free', 'SEGV'):
+        return 'time_tell_negative_pcm_offset_oob_vi', 'ov_time_tell reads vf->vi[-1] when pcm_offset is -1 (after a failed seek)'
+    if func == '_ov_getlap' and kind == 'negative-size-param':
+        return 'getlap_negative_lapout_count', '_ov_getlap memcpy()s a negative sample count returned by vorbis_synthesis_lapout'
+    if func in ('vorbis_synthesis_halfrate', 'vorbis_synthesis_halfrate_p') and 'null' in kind:
+        return 'halfrate_null_codec_setup_after_stream_header_error', ('ov_halfrate/ov_halfrate_p dereference vf->vi->codec_setup==NULL on a streaming handle whose '
+                                                                      'read ran into a link whose headers were rejected (vorbis_info cleared, handle still open)')
     return f'{kind}_in_{func}', f'{kind} in {func}'
 
 
@@ -537,6 +654,11 @@ def replay(path):
     exe = vlib.harness('asan', 'c03_extra')
     d = os.path.join(vlib.zoo_dir(), 'c03_replay')
     os.makedirs(d, exist_ok=True)
+    if r['recipe'].get('base') == 'many_links':
+        vlib.build('plain')
+        m = many_links_case(r['recipe']['links'])
+        print('observed:', m['result'][:400])
+        return 0 if m['result'].startswith('O=') else 1
     bases = base_files()
     twin = os.path.join(d, 'twin.ogg')
     open(twin, 'wb').write(bases['B1'][0])
